@@ -7,6 +7,9 @@ Driver for the enum / bit field model.  kind = `e` (NewEnumType) | `b` (NewBitfi
   enum.ops  <kind> (<name-hex> <int|->)*     direct calls: Set(name, int) or, for `-`, SetNext(name); a failing call is recorded, the next one follows
   enum.text <kind> (<name-hex> <hex|nil>)*   the `set` closure of Type.resolve on the written argument (nil = no value/position statement)
       -> errs=<idx:class,...> names=<hex,...> values=<int,...> namemap=<hex:int,...> valuemap=<int:hex,...>
+  enum.steps <kind> (<name-hex> <int|->)*    the same calls, with the table read back after EVERY call:
+      -> err=<class|-> names=... values=... namemap=... valuemap=...  |  err=...   (one block per call; the table after call k
+         is that of `fold` over the first k calls, the error that of call k)
   spec.assign <kind> (<name-hex> <int|->)*   -> none | ok <hex:int,...>   (RFC 7950 assignment, table listed by ascending name)
   spec.text   <kind> (<name-hex> <hex|nil>)* -> na | none | ok <...>       (na: some argument is not `[sign] digits` without superfluous leading zeros)
 -/
@@ -14,6 +17,21 @@ open Goyang Goyang.Proto
 open Goyang.Model.Enum
 
 def commaSep (xs : List String) : String := ",".intercalate xs
+
+def showTable (e : EnumType) : String :=
+  "names=" ++ commaSep (e.names.map encBytes) ++
+  " values=" ++ commaSep (e.values.map toString) ++
+  " namemap=" ++ commaSep (e.nameMap.map fun (n, v) => s!"{encBytes n}:{v}") ++
+  " valuemap=" ++ commaSep (e.valueMap.map fun (v, n) => s!"{v}:{encBytes n}")
+
+/-- the table and the error after each of the calls: call k is judged by `fold` over the first k calls -/
+def showSteps (e : EnumType) (ms : List Member) : String :=
+  " | ".intercalate ((List.range ms.length).map fun k =>
+    let (ek, errs) := fold e (ms.take (k + 1))
+    let err := match errs.find? (fun p => p.1 == k) with
+      | some (_, c) => c.name
+      | none => "-"
+    "err=" ++ err ++ " " ++ showTable ek)
 
 def showState (r : EnumType × List (Nat × EnumErr)) : String :=
   let (e, errs) := r
@@ -76,6 +94,10 @@ def handle : List String → String
   | "enum.ops" :: k :: rest =>
     match kindOf k, opsArgs rest with
     | some (e, _), some ms => showState (fold e ms)
+    | _, _ => "bad-op"
+  | "enum.steps" :: k :: rest =>
+    match kindOf k, opsArgs rest with
+    | some (e, _), some ms => showSteps e ms
     | _, _ => "bad-op"
   | "enum.text" :: k :: rest =>
     match kindOf k, textArgs rest with
